@@ -29,6 +29,7 @@ X = "repository::x509::"
 def run(ctx):
     ctx = _Rescue(ctx, {})          # (keeps the details of the obligations printable)
     f = ctx.facts()
+    check_serial_text_zero(ctx, f)
     ctx.rule("R-REG", "decision table equals the spec")
     K.check_serial_start(ctx, f)
     ctx.rule("R-GRD", "success requires the guard literal")
@@ -2022,3 +2023,32 @@ def _printable(x, depth=0):
     if isinstance(x, (set, frozenset)):
         return sorted((_printable(v, depth + 1) for v in x), key=str)
     return str(x)[:300]
+
+
+
+def check_serial_text_zero(ctx, f):
+    """The decimal text of the serial number zero is the empty string (Serial::encode_dec writes one digit per division
+    step and zero needs none), so the text reader has to take the empty string: `Serial::from_str("")` succeeds."""
+    fn = "<repository::x509::Serial as std::str::FromStr>::from_str"
+    b = f.body(fn)
+    if b is None:
+        return ctx.missing("R-SIB", "Serial::from_str", fn)
+    ctx.saw_fn(fn)
+    ok, why_ = K.accepts_empty_input(f, b, 1)
+    # the writer's side of the agreement: encode_dec's digit loop runs `while !is_zero()` — for zero not at all
+    eb = f.body("repository::x509::Serial::encode_dec")
+    wz = None
+    if eb is not None:
+        sy = K.sym_of(eb)
+        wz = False
+        for scc in eb.cycles_sccs():
+            for bi in scc:
+                t = eb.term(bi)
+                if t["t"] == "switch" and re.search(r"is_zero\(", render(strip_deep(sy.operand(t["discr"])))):
+                    wz = True
+    if wz is not True:
+        ctx.note("Serial::encode_dec no longer loops `while !is_zero()`: the text of zero may have changed — the empty-string rule was not applied")
+        return
+    ctx.ob("R-SIB", "Serial::from_str:accepts-the-text-of-zero", ok,
+           "Serial::from_str accepts the empty string, which is what encode_dec (Display, String::from, serde) writes for the serial zero",
+           where=b.loc, detail=None if ok else why_)
